@@ -114,6 +114,11 @@ def random_pva(rng, t0, vd=True, two_d=False):
     elif two_d:
         v[2] = rng.uniform(-50, 50)
     rph = [rng.uniform(-180, 180), rng.uniform(-80, 80), rng.uniform(-180, 180)]
+    if rng.random() < 0.15:
+        # angles in another legitimate representation (heading 0..360, roll a turn off)
+        rph[2] += 360.0 * float(rng.choice([1, -1]))
+        rph[0] += 360.0 * float(rng.choice([0, 1, -1]))
+        bump('supplied_states_with_unwrapped_angles')
     return pd.Series([lat, lon, alt, *v, *rph], index=TRAJ, name=float(t0))
 
 
@@ -279,6 +284,12 @@ def run_history(case, two_d_monitors=False):
                              f'fresh integrator with one integrate call ({d}); capacity {cap}, rows {rows}', op=len(ops)))
             elif r < 0.75 and pos < n_inc:
                 row = inc.iloc[pos]
+                zero_row = rng.random() < 0.2
+                if zero_row:
+                    # an increment that is zero in every column, stamped with the current time
+                    row = row * 0.0
+                    row.name = I.trajectory.index[-1]
+                    bump('predict_with_zero_increment')
                 ops.append(('predict',))
                 snap_t = I.trajectory.copy()
                 snap_b = (I.lla[:rows].copy(), I.velocity_n[:rows].copy(), I.mat_nb[:rows].copy())
@@ -291,7 +302,7 @@ def run_history(case, two_d_monitors=False):
                     fail(vio('predict_side_effect', 'predict changed the stored trajectory or the valid part of the buffers', op=len(ops)))
                 # the reference: continue the model by exactly this increment
                 Mx = strapdown.Integrator(last_state, wa)
-                Mx.integrate(inc.iloc[since:pos + 1])
+                Mx.integrate(pd.concat([inc.iloc[since:pos], row.to_frame().T]) if zero_row else inc.iloc[since:pos + 1])
                 exp = Mx.trajectory.iloc[-1]
                 if not (same_bits(p.values, exp.values) and list(p.index) == TRAJ and p.name == row.name):
                     fail(vio('predict_value', f'predict(row {pos}) differs from the row the next integrate appends: '
